@@ -470,7 +470,28 @@ pub fn run_chunk(ctx: &Ctx) {
         let mut lg = gen_line(&mut rng, rate);
         lg.line.noise_rel = if i % 2 == 0 { 0.0 } else { 0.03 };
         let h = gen_header_any(&mut rng).text().into_bytes();
-        let a = transmission(lg.line.clone(), &mut rng, &h, 0.3, lg.pause, 1.5, 7, 7, 1.8);
+        let mut a = transmission(lg.line.clone(), &mut rng, &h, 0.3, lg.pause, 1.5, 7, 7, 1.8);
+        if i % 3 == 2 {
+            // every third stream begins with a transmission that frames correctly but is not a header: the receiver
+            // reports a decode error (an event that `iter_messages` must skip, not stop at) before the good one
+            let mut pre = Audio::new(lg.line.clone());
+            pre.silence(0.3, &mut rng);
+            let mut m = b"ZCZC-".to_vec();
+            m.extend(h.iter().rev());
+            for k in 0..3 {
+                pre.burst(16, &m, &mut rng);
+                if k < 2 {
+                    pre.silence(lg.pause, &mut rng);
+                }
+            }
+            pre.silence(2.5, &mut rng);
+            let shift = pre.samples.len();
+            pre.raw(&a.samples.clone());
+            let mut bursts = pre.bursts.clone();
+            bursts.extend(a.bursts.iter().map(|b| (b.0 + shift, b.1 + shift)));
+            pre.bursts = bursts;
+            a = pre;
+        }
         let n = a.samples.len();
         ctx.dump("sigchunk", i, &a.samples);
         // reference: one binding
@@ -799,7 +820,10 @@ pub fn run_long(ctx: &Ctx) {
             }
             a.silence(1.5, &mut rng);
         }
-        let follow = 141.0;
+        // (back-to-back maximum-length bursts leave the link idle for a tick or two every 4.6 s only: the forced
+        //  EndOfMessage may legitimately come up to one frame late; the stream goes on long enough to tell "a frame
+        //  late" from "whenever the carrier stops")
+        let follow = if kind == "valid_char_bursts" { 152.0 } else { 141.0 };
         match kind {
             "noheader_err_silence" | "noheader_err_noise" => {
                 // two or three bursts that agree on a non-empty prefix which is not a header:
@@ -939,13 +963,18 @@ pub fn run_long(ctx: &Ctx) {
             }
             _ => {
                 // back-to-back long bursts of valid characters (each hits the length cap)
+                // tight: frames of exactly the maximum length with no gap at all — the link layer is idle for a tick
+                // or two per frame only; loose: over-long bursts (the part beyond the cap is unsynchronised carrier)
+                let tight = (i / kinds.len()) % 2 == 0;
                 let mut t = 0.0;
                 while t < follow {
+                    let n = if tight { 247 } else { 600 };
                     let mut p = b"ZCZC-".to_vec();
-                    p.extend((0..600).map(|_| *rng.pick(CALL_CHARS)));
+                    p.extend((0..n).map(|_| *rng.pick(CALL_CHARS)));
                     a.burst(16, &p, &mut rng);
-                    a.silence(0.3, &mut rng);
-                    t += 8.0 * 621.0 / BAUD + 0.3;
+                    let gap = if tight { 0.0 } else { 0.3 };
+                    a.silence(gap, &mut rng);
+                    t += 8.0 * (16.0 + p.len() as f64) / BAUD + gap;
                 }
             }
         }
@@ -1622,9 +1651,28 @@ pub fn run_phase(ctx: &Ctx) {
         };
         let mut a = Audio::new(lg.line.clone());
         a.silence(0.3 + (half_syms as f64) * 0.5 / BAUD, &mut rng);
-        let kind = (i / 16) % 5;
+        let kind = (i / 16) % 6;
         let lead = match kind {
             0 => "none".to_owned(),
+            5 => {
+                // a much longer preamble than standard (a slow or stuck encoder): the first prefix search is abandoned
+                // after 21 bytes, byte sync must be dropped and re-acquired on the remaining preamble
+                // (19..25 bytes in total is the window the property itself excludes, DESIGN N6; 30 and more decode)
+                // (measured with `harness preamblesweep`: totals 19..29, 41..53, 63..78, 85..100 are not framed at some
+                //  phase or other — the excluded window of DESIGN N6 repeats every 22 bytes and widens; 30..40 and
+                //  54..62 always decode)
+                // (the thorough tier then found 55, 56 and 58 failing at rare phases: only 31..39 is used)
+                let total = rng.range(31, 39) as usize;
+                let extra = total - 16;
+                let mut bits = vec![];
+                for _ in 0..extra {
+                    for bit in 0..8 {
+                        bits.push((0xABu8 >> bit) & 1 == 1);
+                    }
+                }
+                a.bits(&bits, &mut rng);
+                format!("long_preamble{}", 16 + extra)
+            }
             1 => {
                 let nb = rng.range(1, 200) as usize;
                 let bits: Vec<bool> = (0..nb).map(|_| rng.chance(1, 2)).collect();
@@ -1680,8 +1728,38 @@ pub fn run_phase(ctx: &Ctx) {
         let evline = show_events(&evs);
         out.spec(&format!("spec.sig c07 {} [{}] => {}", hex(&payload), label, evline));
         out.spec(&format!("spec.sig c13life - [{}] => {}", label, evline));
-        out.count(&format!("lead:{}", ["none", "random_bits", "early_slip", "alternating", "extra_preamble"][kind]));
+        out.count(&format!("lead:{}", ["none", "random_bits", "early_slip", "alternating", "extra_preamble", "long_preamble"][kind]));
         out.count(&format!("bursts_seen:{}", evs.iter().filter(|e| e.burst().is_some()).count()));
     }
     out.finish(&ctx.out_dir, "sigphase", &[]);
+}
+
+/// diagnostic (not a suite): which total preamble lengths are framed?  (DESIGN N6)
+pub fn preamble_sweep(seed: u64) {
+    let mut rng = Rng::new(seed);
+    for rate in [11025u32, 22050, 48000] {
+        let mut ok = vec![];
+        let mut bad = vec![];
+        for total in 16usize..=100 {
+            let mut fails = 0;
+            for _ in 0..4 {
+                let mut lg = gen_line(&mut rng, rate);
+                lg.line.noise_rel = 0.0;
+                lg.line.baud_err = 0.0;
+                let h = gen_header_any(&mut rng).text().into_bytes();
+                let mut a = Audio::new(lg.line.clone());
+                a.silence(0.3 + rng.unit() * 0.01, &mut rng);
+                a.burst(total, &h, &mut rng);
+                a.silence(1.0, &mut rng);
+                let mut r = build(Cfg::Samedec, rate);
+                let evs = run_plain(&mut r, &a.samples);
+                let n = evs.iter().filter(|e| e.burst().map(|b| b.starts_with(&h)).unwrap_or(false)).count();
+                if n != 1 {
+                    fails += 1;
+                }
+            }
+            if fails == 0 { ok.push(total) } else { bad.push((total, fails)) }
+        }
+        println!("rate {}: not framed (fails of 4): {:?}", rate, bad);
+    }
 }
